@@ -74,20 +74,35 @@ def toy_fc(prov, req, injected, raw=False):
     return _FC[key]
 
 
-_SHARED = {'n': 0, 'b': None}
+_SHARED = {'n': 0, 'b': None, 'first': {}, 'prev': None, 'forced': None}
 
 
-def shared_builder():
+def shared_builder(case=None):
     """Two out of three builds are done by one long-lived Builder instance (the parsed contents are
     shared between the cases of a layout as well): by C12 a build does not depend on earlier ones,
-    so every case must get the verdict and semantics of *its own* configuration."""
+    so every case must get the verdict and semantics of *its own* configuration.  The first case
+    built on the same parsed contents and the previous case are remembered, so that a failure can be
+    written out with the history that a replay needs."""
     from dznpy.adv_shell import Builder
+    if _SHARED['forced'] is not None:
+        return _SHARED['forced']
     _SHARED['n'] += 1
     if _SHARED['n'] % 3 == 0:
         return None
     if _SHARED['b'] is None:
         _SHARED['b'] = Builder()
+    if case is not None:
+        key = layout_key(case)
+        hist = [h for h in (_SHARED['first'].get(key), _SHARED['prev']) if h is not None]
+        case['_hist'] = [dict(h) for h in hist]
+        plain = {k: v for k, v in case.items() if not k.startswith('_') and k != 'history'}
+        _SHARED['first'].setdefault(key, plain)
+        _SHARED['prev'] = plain
     return _SHARED['b']
+
+
+def layout_key(case):
+    return repr((case.get('prov'), case.get('req'), case.get('inj'), bool(case.get('raw'))))
 
 
 def pre(sel, prefix):
@@ -105,7 +120,7 @@ def accessor_map(files):
     return out
 
 
-def judge(verdict, ref, spec, fc, prov, req, injected, build):
+def judge(verdict, ref, spec, fc, prov, req, injected, build, case=None):
     """Run construction -> match (-> build) on the real code and compare with the reference."""
     from dznpy.adv_shell.types import AdvShellError, RuntimeSemantics
     stage = 'construct'
@@ -117,7 +132,7 @@ def judge(verdict, ref, spec, fc, prov, req, injected, build):
         files = None
         if build:
             stage = 'build'
-            kind, res = cfgspec.outcome(spec, fc=fc, builder=shared_builder())
+            kind, res = cfgspec.outcome(spec, fc=fc, builder=shared_builder(case))
             if kind == 'err':
                 raise res
             files = res
@@ -162,6 +177,32 @@ def spec_for(prov_sel, req_sel, enc):
 
 
 def check_case(case):
+    if case.get('history') and _SHARED['forced'] is None:
+        # replay of a failure seen under the long-lived Builder: its history first, same Builder
+        from dznpy.adv_shell import Builder
+        _SHARED['forced'] = Builder()
+        try:
+            for h in case['history']:
+                try:
+                    check_case(dict(h))
+                except Exception:  # pylint: disable=broad-except
+                    pass
+            check_case({k: v for k, v in case.items() if k != 'history'})
+        finally:
+            _SHARED['forced'] = None
+        return
+    try:
+        check_case_1(case)
+    except Fail:
+        hist = case.pop('_hist', None)
+        if hist:
+            case['history'] = hist
+        raise
+    finally:
+        case.pop('_hist', None)
+
+
+def check_case_1(case):
     prov, req, inj = case['prov'], case['req'], case['inj']
     pp, rp = ('', '') if case.get('raw') else ('p', 'r')
     ps = (pre(case['psel'][0], pp), pre(case['psel'][1], pp))
@@ -175,7 +216,7 @@ def check_case(case):
         if verdict != MUST_REJECT and ref.get('p' + case['mc']) != 'MTS':
             verdict = MUST_REJECT
     fc = toy_fc(prov, req, inj, bool(case.get('raw'))) if case['build'] else None
-    judge(verdict, ref, spec, fc, pn, rn, jn, case['build'])
+    judge(verdict, ref, spec, fc, pn, rn, jn, case['build'], case)
 
 
 def side_cases():
